@@ -19,7 +19,7 @@ func init() {
 	Registry["C10"] = Spec{
 		Fn:          c10,
 		Level:       "fault_enumeration",
-		Rule:        "scenarios of C04 plus the handshake; for every gate of a fault-free pilot run (before/after each client write, before each server packet, inside each callback, at each internal hook point) the caller's context is cancelled (or its deadline made to pass) at that gate; additionally the server stalls after k bytes of each packet (mid-packet silence, k sampled over the stream) and the context is cancelled during the stall; a context already done before the call; a peer that stops reading (blocked write); short, default (3 s) and disabled (NoTimeout) read timeouts. Oracle: the call returns (stuck-state evidence: reader blocked with no deadline armed while the context is done), the error matches the context's error, a Cancel packet is written whenever the transport is healthy (cancel / deadline / stall plans) and is the single byte 03 in its own Write call, the connection is closed exactly once, at most one further server packet is begun after the cancel instant, no library goroutine outlives the call. Non-trivial = the cancellation took effect before the scenario would have completed; distinct = (scenario, gate, action)",
+		Rule:        "scenarios of C04 plus the handshake; for every gate of a fault-free pilot run (before/after each client write, before each server packet, inside each callback, at each internal hook point) the caller's context is cancelled (or its deadline made to pass) at that gate; during the handshake also while the addendum write is blocked by a peer that stopped reading after its hello; additionally the server stalls after k bytes of each packet (mid-packet silence, k sampled over the stream) and the context is cancelled during the stall; a context already done before the call; a peer that stops reading (blocked write); short, default (3 s) and disabled (NoTimeout) read timeouts. Oracle: the call returns (stuck-state evidence: reader blocked with no deadline armed while the context is done), the error matches the context's error, a Cancel packet is written whenever the transport is healthy (cancel / deadline / stall plans) and is the single byte 03 in its own Write call, the connection is closed exactly once, at most one further server packet is begun after the cancel instant, no library goroutine outlives the call. Non-trivial = the cancellation took effect before the scenario would have completed; distinct = (scenario, gate, action)",
 		Assumptions: []string{"prompt = returns within the read timeout (100 ms here) plus a generous wall-clock watchdog (10 s) whose firing alone is inconclusive; it becomes a violation only together with stuck-state evidence (context done, reader blocked without deadline, nothing queued)"},
 		MinDistinct: 200,
 	}
@@ -282,6 +282,22 @@ func c10Handshake(r *core.Run, ci int64, k int) {
 	if k%3 == 1 {
 		sim.Conn.BlockWritesAfter = int64(k % 5) // the peer does not even read the client hello
 	}
+	addendumBlocked := k%7 == 3
+	if addendumBlocked {
+		// the whole hello arrives, then the peer stops reading: the client's next write (the
+		// addendum) blocks, and the context ends while it does
+		cut = -1
+		script.Hello = func(ref.ClientHello) []simnet.Item {
+			return []simnet.Item{{Data: sim.Srv.ServerHelloBytes(54460)}}
+		}
+		sim.Conn.BlockWritesAfter = -1
+		sim.Conn.OnGate = func(g string) {
+			if g == "write:before:1" {
+				w := sim.Conn.WrittenBytes()
+				sim.Conn.Locked(func() { sim.Conn.BlockWritesAfter = w })
+			}
+		}
+	}
 	ctx, cancel := context.WithCancel(context.Background())
 	useDeadline := k%2 == 0
 	if useDeadline {
@@ -298,11 +314,12 @@ func c10Handshake(r *core.Run, ci int64, k int) {
 		}
 	}()
 	ok := runWithWatchdog(10*time.Second, func() {
-		client, err = ch.Connect(ctx, sim.Conn, ch.Options{ReadTimeout: 50 * time.Millisecond, HandshakeTimeout: 5 * time.Second})
+		// the handshake timeout must not be what ends a cancelled handshake
+		client, err = ch.Connect(ctx, sim.Conn, ch.Options{ReadTimeout: 50 * time.Millisecond, HandshakeTimeout: time.Hour})
 	})
 	r.Eval()
-	desc := map[string]any{"hello_bytes_before_silence": cut, "deadline": useDeadline, "peer_not_reading": k%3 == 1}
-	r.NonTrivial("handshake", cut, useDeadline, k%3 == 1)
+	desc := map[string]any{"hello_bytes_before_silence": cut, "deadline": useDeadline, "peer_not_reading": k%3 == 1, "addendum_write_blocked": addendumBlocked}
+	r.NonTrivial("handshake", cut, useDeadline, k%3 == 1, addendumBlocked)
 	fail := func(class, msg string) {
 		r.Violation(class, fmt.Sprintf("%s [handshake, hello cut at %d, deadline=%v]", msg, cut, useDeadline), desc)
 	}
